@@ -202,13 +202,11 @@ def literal_and_json(model, R):
     for n in walk(df.body):
         if isinstance(n, ast.Dict):
             wk |= {const(k) for k in n.keys if isinstance(const(k), str)}
-    keys_iter = set()
-    for n in walk(df.nested['iterlines'].body if 'iterlines' in df.nested else df.body):
-        if isinstance(n, ast.Tuple) and n.elts and all(isinstance(const(e), str) for e in n.elts):
-            keys_iter |= {const(e) for e in n.elts}
-    R.check(wk == {'objects', 'properties', 'context'} and keys_iter == {'objects', 'properties', 'context', 'lattice'}, 'AGREEMENT', df, df.node,
-            'python-literal writer: keys objects/properties/context and optional lattice', "{'objects','properties','context'} + 'lattice'",
-            f'{sorted(wk)} / sections {sorted(keys_iter)}')
+    # every key the writer can emit as a section: string constants of the function (incl. its nested generators) among the four key names
+    keys_iter = {const(n) for n in ast.walk(df.node) if isinstance(n, ast.Constant) and const(n) in ('objects', 'properties', 'context', 'lattice')}
+    R.decided(wk == {'objects', 'properties', 'context'} and keys_iter == {'objects', 'properties', 'context', 'lattice'}, 'AGREEMENT', df, df.node,
+              'python-literal writer: keys objects/properties/context and optional lattice', "{'objects','properties','context'} + 'lattice'",
+              f'{sorted(wk)} / sections {sorted(keys_iter)}')
     rk = set()
     for n in walk(lf.body):
         if isinstance(n, ast.Subscript) and name_is(n.value, 'args') and isinstance(const(n.slice), str):
